@@ -130,7 +130,11 @@ fn bias_sweep(b: usize, step: f64) -> (u64, f64, f64, Vec<Viol>, Vec<serde_json:
             viols.push(Viol { property: "C03".into(), signature: "hll relative_error below the HLL standard error".into(), message: format!("b={}: relative_error() * sqrt(m) = {:.4}, but the standard error of HyperLogLog is at least 1.039 / sqrt(m): the advertised error cannot bound the RMS of count()", b, adv), replay: json!({"structure": "HyperLogLog", "b": b, "relative_error": h.relative_error(), "m": m}) });
         }
     }
-    while n <= 50.0 * m {
+    // "from 0 to at least 50 * 2^b": the dense grid ends at 50 m; beyond it a coarse grid (x 1.19) continues to 2^40 distinct
+    // elements - the canonical registers cost O(m) whatever n is, and corrections that only engage at large raw estimates
+    // (a 32-bit large-range correction in a 64-bit sketch, say) are read there
+    while n <= 1.1e12 {
+        let step = if n > 50.0 * m { 1.19 } else { step };
         let nn = n.round().max(1.0);
         let regs = canonical_registers(b, nn);
         let h = build(b, regs.clone());
